@@ -558,8 +558,7 @@ def load_known(prop_id):
 
 def jsonable(x):
     try:
-        json.dumps(x)
-        return x
+        return json.loads(json.dumps(x, default=repr))
     except (TypeError, ValueError):
         return repr(x)
 
